@@ -771,7 +771,7 @@ func propC11() *Prop {
 			for k := int64(1); k <= tierPick(tier, 2, 3); k++ {
 				js = append(js, job(fmt.Sprintf("C11c/admin-api-histories[k=%d, names with leading/trailing blanks]", k), "adminapi", "VerifC11API", k))
 			}
-			for i, n := range []string{"SetStrategy || AddBackend", "SetStrategy || RemoveBackend", "AddBackend || RemoveBackend", "SetStrategy || SetStrategy", "ListBackends || RemoveBackend (4 backends)", "ListBackends || AddBackend (4 backends)"} {
+			for i, n := range []string{"SetStrategy || AddBackend", "SetStrategy || RemoveBackend", "AddBackend || RemoveBackend", "SetStrategy || SetStrategy", "ListBackends || RemoveBackend (4 backends)", "ListBackends || AddBackend (4 backends)", "ListBackends || RemoveBackend of a name registered twice", "two requests and a listing || RemoveBackend of a name registered twice"} {
 				js = append(js, threadJob(lbJob("C11b/atomicity["+n+"]", "VerifC11Atomic", int64(i)), int(tierPick(tier, 2, 3))))
 			}
 			return js
@@ -798,7 +798,7 @@ func propC20() *Prop {
 			js = append(js, threadJob(lbJob("C20a/pool-as-the-balancer-builds-it[real validation + setupWebSocketPool, max_idle 1..3, max_active 0..4, idle_timeout 1..600 s]", "VerifC20Wiring"), 1))
 			js = append(js, lbJob("C20b/hijack[balancer writer]", "VerifC20Hijack"))
 			js = append(js, mainJob("C20b/upgrade-requests-through-the-real-handler-stack[no timer on the tunnel's context, whatever server.timeouts.handler; plugins apply]", "VerifStack", 0, 1, 0))
-			for i, n := range []string{"cleanup || Put", "Get || Get", "Put || Shutdown", "first Put of a new backend || Shutdown", "first Put || first Put of one new backend"} {
+			for i, n := range []string{"cleanup || Put", "Get || Get", "Put || Shutdown", "first Put of a new backend || Shutdown", "first Put || first Put of one new backend", "cleanup of the last stale connection || Shutdown", "cleanup of the last stale connection || Get and Stats", "Get discarding two stale connections || Put"} {
 				js = append(js, threadJob(lbJob("C20c/concurrent["+n+"]", "VerifC20Concurrent", int64(i)), int(tierPick(tier, 2, 3))))
 			}
 			for k := int64(1); k <= 3; k++ {
@@ -845,7 +845,7 @@ func propC12() *Prop {
 			for i, n := range pairNames {
 				js = append(js, threadJob(lbJob(fmt.Sprintf("C12/pair[%s]", n), "VerifC12Pair", int64(i)), int(tierPick(tier, 2, 3))))
 			}
-			for i, n := range []string{"pool cleanup || Put", "pool Get || Get", "pool Put || Shutdown", "pool first Put of a new backend || Shutdown", "pool first Put || first Put of one new backend"} {
+			for i, n := range []string{"pool cleanup || Put", "pool Get || Get", "pool Put || Shutdown", "pool first Put of a new backend || Shutdown", "pool first Put || first Put of one new backend", "pool cleanup of the last stale connection || Shutdown", "pool cleanup of the last stale connection || Get and Stats", "pool Get discarding two stale connections || Put"} {
 				js = append(js, threadJob(lbJob("C12/pair["+n+" (real constructor)]", "VerifC20Concurrent", int64(i)), int(tierPick(tier, 2, 3))))
 			}
 			for i, a := range metricsOps {
@@ -906,7 +906,7 @@ func propC19() *Prop {
 			}
 			js = append(js, threadJob(lbJob("C19/Stop-racing-Stop", "VerifC19Stop", 1, 1, 0), int(tierPick(tier, 2, 3))))
 			js = append(js, threadJob(lbJob("C19/Stop-with-active-checks-disabled[the pool is still shut down]", "VerifC19Stop", 5, 1, 0), 1))
-			for i, n := range []string{"cleanup || Put", "Get || Get", "Put || Shutdown", "first Put of a new backend || Shutdown", "first Put || first Put of one new backend"} {
+			for i, n := range []string{"cleanup || Put", "Get || Get", "Put || Shutdown", "first Put of a new backend || Shutdown", "first Put || first Put of one new backend", "cleanup of the last stale connection || Shutdown", "cleanup of the last stale connection || Get and Stats", "Get discarding two stale connections || Put"} {
 				js = append(js, threadJob(lbJob("C19/pool["+n+"; afterwards Shutdown has closed every connection the pool accepted]", "VerifC20Concurrent", int64(i)), int(tierPick(tier, 2, 3))))
 			}
 			js = append(js, threadJob(lbJob("C19/Stop-then-late-tick-then-Stop[N=2]", "VerifC19Stop", 2, 2, 0), 1))
